@@ -46,6 +46,7 @@ class World:
         self.closed_handle_events = 0
         self.mod.handler = self.route
         self.n = 0
+        self.known = 0
 
     def route(self, ev):
         if ev.get("file_closed"):
@@ -76,12 +77,48 @@ class World:
         t.vendor, t.product, t.rev = [(b"VMON    ", b"SIMULATED LUN   ", b"0001"), (b"ACME\xff\xff\xff\xff", b"Bridge\xff\xff\xff\xff\xff\xff\xff\xff\xff\xff", b"\xff\xff\xff\xff"),
                                      (b"M\xfcller ", b"Ger\xe4t \xb5SD      ", b"1.0\xb0"), (b"USB\0\0\0\0\0", b"Flash\0\0\0\0\0\0\0\0\0\0\0", b"\0\0\0\0"),
                                      (bytes(8), bytes(16), bytes(4)), (b"\xe6\x97\xa5\xe6\x9c\xac  ", b"\xe3\x83\x87\xe3\x82\xa3\xe3\x82\xb9\xe3\x82\xaf    ", b"v\xc2\xb2 ")][self.n % 6]
+        if self.n % 3 == 0:
+            # ... and as real units call themselves (every entry meets every device type over a run)
+            from vmon.sim.target import KNOWN_IDS
+
+            self.known += 1
+            t.vendor, t.product = KNOWN_IDS[(self.known * 7 + devtype) % len(KNOWN_IDS)]
         t.vendor, t.product, t.rev = t.vendor.ljust(8)[:8], t.product.ljust(16)[:16], t.rev.ljust(4)[:4]
         # standard INQUIRY data of every legal size: the minimum, the usual ones, and more than the 96 bytes asked for
         t.inquiry_length = (96, 36, 96, 97, 128, 255, 256, 260, 74, 58, 100, 200)[self.n % 12]
-        if self.transport == "sgio":
+        if self.transport == "sgio" and self.n % 4 == 1:
+            # the node named through a directory link and '..' (the kernel resolves '..' behind the link's target), by way of the
+            # documented helper
+            import os
+
+            from pyscsi.utils import init_device
+
+            from vmon.sim import devnode
+
+            node = devnode.new_node(own_dir=True)
+            d = os.path.dirname(node)
+            os.mkdir(os.path.join(d, "sub"))
+            link = os.path.join(devnode.base(), "l%d" % self.n)
+            os.symlink(os.path.join(d, "sub"), link)
+            path = link + "/../" + os.path.basename(node)
+            self.by_ino[os.stat(node).st_ino] = t
+            self.by_dev[path] = t
+            self.by_dev[node] = t
+            dev = init_device(path, True)
+        elif self.transport == "sgio":
             dev, node = self.install.sgio_device()
             self.by_dev[node] = t
+            import os as _os
+
+            self.by_ino.pop(_os.stat(node).st_ino, None)  # an inode number of a removed node may come back
+            if self.n % 5 == 2:
+                # a shallow copy of the device object that is dropped again leaves the device as it was
+                import copy
+                import gc
+
+                twin = copy.copy(dev)
+                del twin
+                gc.collect()
         else:
             # several logical units behind one portal/target/initiator, as real targets have
             dev = self.install.iscsi_device("iscsi://10.0.0.1:3260/iqn.2003-01.org.example:shared/%d" % self.n)
